@@ -419,9 +419,19 @@ class Body:
             if pr and pr[0]['k'] == 'field' and pr[0].get('adt') in ('<tuple>', None) and 'idx' in pr[0]:
                 # a field of a tuple built in one place (`let (a, b) = (x, y)`, an argument tuple): only that field's sources
                 ds = self.assigns().get(local, [])
-                if len(ds) == 1 and ds[0][2] == 'stmt' and not ds[0][4] and ds[0][3]['k'] == 'aggregate' and ds[0][3].get('agg') == 'tuple' \
-                        and pr[0]['idx'] < len(ds[0][3]['fields']) and not (1 <= local <= self.arg_count):
-                    return self.origins(ds[0][3]['fields'][pr[0]['idx']], through_calls, _seen, fields, binops)
+                if ds and not (1 <= local <= self.arg_count) and all(d[2] == 'stmt' and not d[4] and d[3]['k'] == 'aggregate' and d[3].get('agg') == 'tuple'
+                                                                      and pr[0]['idx'] < len(d[3]['fields']) for d in ds):
+                    for d in ds:
+                        out |= self.origins(d[3]['fields'][pr[0]['idx']], through_calls, _seen, fields, binops)
+                    return out
+            if len(pr) >= 2 and pr[0]['k'] == 'downcast' and pr[1]['k'] == 'field' and not (1 <= local <= self.arg_count):
+                # the payload of one variant of an enum value built in this body (`match helper() { Ok(v) => v, .. }` after the helper
+                # was spliced in): only what went into that variant
+                r = self._variant_payload(local, pr[0].get('variant'), pr[1]['idx'], 0)
+                if r is not None:
+                    for f in r:
+                        out |= self.origins(f, through_calls, _seen, fields, binops)
+                    return out
         else:
             out.add(('other', -1, -1))
             return out
@@ -476,6 +486,33 @@ class Body:
                     out.add(('static', rv['def']))
                 else:
                     out.add(('other', bb, i))
+        return out
+
+    def _variant_payload(self, local, vname, idx, depth):
+        """operands stored as field `idx` of variant `vname` in every place `local` is built (following plain copies of whole
+        values); None when some definition is not such an aggregate"""
+        if depth > 4 or vname is None:
+            return None
+        ds = self.assigns().get(local, [])
+        if not ds:
+            return None
+        out = []
+        for (bb, i, kind, rv, proj) in ds:
+            if kind != 'stmt' or proj:
+                return None
+            if rv['k'] == 'aggregate' and rv.get('agg') == 'adt' and rv.get('variant') is not None:
+                if rv['variant'] == vname:
+                    if idx >= len(rv['fields']):
+                        return None
+                    out.append(rv['fields'][idx])
+            elif rv['k'] == 'use' and rv['op'].get('k') in ('copy', 'move') and not rv['op']['place']['proj'] \
+                    and not (1 <= rv['op']['place']['local'] <= self.arg_count):
+                r = self._variant_payload(rv['op']['place']['local'], vname, idx, depth + 1)
+                if r is None:
+                    return None
+                out.extend(r)
+            else:
+                return None
         return out
 
     def ref_path(self, op, depth=0):
@@ -695,7 +732,8 @@ class Crate:
         for b in sorted(self.all_bodies, key=lambda x: len(x.key)):
             j = b.j
             if b.kind == 'Closure':
-                parent = self.by_key.get(j.get('parent'))
+                # (a closure aligned with a closure of another function carries that function in its key: the key wins)
+                parent = self.by_key.get(b.key.rsplit('::', 1)[0]) or self.by_key.get(j.get('parent'))
                 suffix = b.key.rsplit('::', 1)[-1]
                 b.fname = ((parent.fname if parent is not None else strip_generics(b.pretty)) + '::' + suffix) if parent is not None else strip_generics(b.pretty)
             elif j.get('impl_trait_ref'):
@@ -717,7 +755,7 @@ class Crate:
                         b.fname = '<%s>::%s' % (j['impl_self_ty'], b.name)
         for b in sorted(self.all_bodies, key=lambda x: len(x.key)):
             if b.kind == 'Closure':
-                parent = self.by_key.get(b.j.get('parent'))
+                parent = self.by_key.get(b.key.rsplit('::', 1)[0]) or self.by_key.get(b.j.get('parent'))
                 if parent is not None:
                     b.fname = parent.fname + '::' + b.key.rsplit('::', 1)[-1]
         self.consts = {c['pretty']: c for c in self.j['consts']}
@@ -1115,6 +1153,73 @@ _VIDX = {('core::option::Option', 'None'): 0, ('core::option::Option', 'Some'): 
          ('core::ops::control_flow::ControlFlow', 'Continue'): 0, ('core::ops::control_flow::ControlFlow', 'Break'): 1}
 
 
+def _ev_value(env, o):
+    if o.get('k') == 'const' and isinstance(o.get('c'), dict) and 'int' in o['c']:
+        return ('int', o['c']['int'])
+    if o.get('k') in ('copy', 'move'):
+        pl = o['place']
+        src = env.get(pl['local'])
+        pr = pl['proj']
+        while src is not None and pr:
+            if src[0] == 'agg' and len(pr) >= 2 and pr[0]['k'] == 'downcast' and pr[1]['k'] == 'field' and pr[0].get('vidx') == src[1] \
+                    and pr[1]['idx'] < len(src[2]):
+                src, pr = src[2][pr[1]['idx']], pr[2:]
+            elif src[0] == 'tup' and pr[0]['k'] == 'field' and pr[0]['idx'] < len(src[1]):
+                src, pr = src[1][pr[0]['idx']], pr[1:]
+            else:
+                return None
+        return src
+    return None
+
+
+def _ev_stmt(env, s):
+    """abstract evaluation of one statement over {local: ('int', n) | ('agg', variant index, [field values]) | ('tup', [field values])}"""
+    if s['k'] != 'assign' or s['dest']['proj']:
+        if s['k'] in ('assign', 'setdiscr'):
+            env.pop(s['dest']['local'], None)
+        return
+    L, rv = s['dest']['local'], s['rv']
+    val = None
+    if rv['k'] == 'use':
+        val = _ev_value(env, rv['op'])
+    elif rv['k'] == 'aggregate' and rv.get('agg') == 'adt' and (rv.get('adt'), rv.get('variant')) in _VIDX:
+        val = ('agg', _VIDX[(rv['adt'], rv['variant'])], [_ev_value(env, f) for f in rv['fields']])
+    elif rv['k'] == 'aggregate' and rv.get('agg') == 'tuple' and rv['fields']:
+        val = ('tup', [_ev_value(env, f) for f in rv['fields']])
+    elif rv['k'] == 'discr':
+        src = _ev_value(env, {'k': 'copy', 'place': rv['place']})
+        if src and src[0] == 'agg':
+            val = ('int', src[1])
+    if val is None:
+        env.pop(L, None)
+    else:
+        env[L] = val
+
+
+def _ev_switch(env, t):
+    """the successor a switch takes under env, or None"""
+    if t['k'] != 'switch':
+        return None
+    v = _ev_value(env, t['discr'])
+    if v and v[0] == 'int':
+        tg = [y for (val, y) in t['targets'] if val == v[1]]
+        return tg[0] if tg else t['otherwise']
+    return None
+
+
+def path_env(body, path):
+    """abstract values of plain locals after running the blocks of `path` in order (calls forget their destination)"""
+    env = {}
+    for bb in path:
+        blk = body.blocks[bb]
+        for s_ in blk['stmts']:
+            _ev_stmt(env, s_)
+        t = blk['term']
+        if t['k'] == 'call' and not t['dest']['proj']:
+            env.pop(t['dest']['local'], None)
+    return env
+
+
 def thread_jumps(body, max_rounds=6):
     """Jump threading on a body JSON (used only where something was spliced in): a block that gives a plain local a constant or a
     known enum variant and then runs, through straight-line blocks without calls, into a switch on exactly that (the spliced-in
@@ -1123,43 +1228,7 @@ def thread_jumps(body, max_rounds=6):
     import copy
     blocks = body['blocks']
 
-    def ev_stmt(env, s):
-        if s['k'] != 'assign' or s['dest']['proj']:
-            if s['k'] in ('assign', 'setdiscr'):
-                env.pop(s['dest']['local'], None)
-            return
-        L, rv = s['dest']['local'], s['rv']
-        val = None
-        if rv['k'] == 'use':
-            o = rv['op']
-            if o['k'] == 'const' and isinstance(o.get('c'), dict) and 'int' in o['c']:
-                val = ('int', o['c']['int'])
-            elif o['k'] in ('copy', 'move'):
-                pl = o['place']
-                src = env.get(pl['local'])
-                if not pl['proj']:
-                    val = src
-                elif src and src[0] == 'agg' and len(pl['proj']) == 2 and pl['proj'][0]['k'] == 'downcast' and pl['proj'][1]['k'] == 'field' \
-                        and pl['proj'][0].get('vidx') == src[1] and pl['proj'][1]['idx'] < len(src[2]):
-                    val = src[2][pl['proj'][1]['idx']]
-        elif rv['k'] == 'aggregate' and rv.get('agg') == 'adt' and (rv.get('adt'), rv.get('variant')) in _VIDX:
-            fs = []
-            for f in rv['fields']:
-                if f['k'] == 'const' and isinstance(f.get('c'), dict) and 'int' in f['c']:
-                    fs.append(('int', f['c']['int']))
-                elif f['k'] in ('copy', 'move') and not f['place']['proj']:
-                    fs.append(env.get(f['place']['local']))
-                else:
-                    fs.append(None)
-            val = ('agg', _VIDX[(rv['adt'], rv['variant'])], fs)
-        elif rv['k'] == 'discr' and not rv['place']['proj']:
-            src = env.get(rv['place']['local'])
-            if src and src[0] == 'agg':
-                val = ('int', src[1])
-        if val is None:
-            env.pop(L, None)
-        else:
-            env[L] = val
+    ev_stmt = _ev_stmt
 
     changed_any = False
     for _ in range(max_rounds):
@@ -1185,18 +1254,7 @@ def thread_jumps(body, max_rounds=6):
                 if tx['k'] == 'goto':
                     x = tx['target']
                     continue
-                if tx['k'] == 'switch' and tx['discr']['k'] in ('copy', 'move'):
-                    pl = tx['discr']['place']
-                    v = env.get(pl['local'])
-                    if pl['proj']:
-                        if v and v[0] == 'agg' and len(pl['proj']) == 2 and pl['proj'][0]['k'] == 'downcast' and pl['proj'][1]['k'] == 'field' \
-                                and pl['proj'][0].get('vidx') == v[1] and pl['proj'][1]['idx'] < len(v[2]):
-                            v = v[2][pl['proj'][1]['idx']]
-                        else:
-                            v = None
-                    if v and v[0] == 'int':
-                        tg = [y for (val, y) in tx['targets'] if val == v[1]]
-                        decided = tg[0] if tg else tx['otherwise']
+                decided = _ev_switch(env, tx)
                 break
             if decided is None:
                 continue
@@ -1232,6 +1290,72 @@ def inline_unknown_helpers(j, known_names, helper_keys=None, max_rounds=3):
         return set()
     originals = {k: copy.deepcopy(v) for k, v in helpers.items()}
     used = set()
+    # A known function that has become a pure forwarder to a new helper (`fn load(&self, s) { Self::protect(s) }`): the helper IS that
+    # function now. Its other callers are shown to the rules as callers of the known function (which is what they were before the
+    # body moved), the helper's body is spliced into the forwarder only.
+    forward = {}
+    for b in j['bodies']:
+        if b['key'] in helpers or b['kind'] not in ('Fn', 'AssocFn') or len(b['blocks']) > 5:
+            continue
+        calls = [(bb, blk['term']) for bb, blk in enumerate(b['blocks']) if blk['term']['k'] == 'call' and not blk['cleanup']]
+        if len(calls) != 1:
+            continue
+        bb, t = calls[0]
+        hk = t['callee'].get('resolved') or t['callee'].get('key')
+        if hk not in helpers:
+            continue
+        defs = defaultdict(list)
+        for blk in b['blocks']:
+            for st in blk['stmts']:
+                if st['k'] == 'assign' and not st['dest']['proj']:
+                    defs[st['dest']['local']].append(st['rv'])
+
+        def root(op, depth=0):
+            if op.get('k') not in ('copy', 'move') or depth > 4:
+                return None
+            l = op['place']['local']
+            if 1 <= l <= b['arg_count'] and all(e['k'] == 'deref' for e in op['place']['proj']):
+                return l
+            if op['place']['proj'] or len(defs.get(l, ())) != 1:
+                return None
+            rv = defs[l][0]
+            if rv['k'] in ('use', 'cast'):
+                return root(rv['op'], depth + 1)
+            if rv['k'] in ('ref', 'rawptr') and all(e['k'] == 'deref' for e in rv['place']['proj']):
+                return root({'k': 'copy', 'place': {'local': rv['place']['local'], 'proj': []}}, depth + 1)
+            return None
+        params = [root(a) for a in t['args']]
+        if None in params or params != sorted(set(params)):
+            continue
+        d = t['dest']
+        to_ret = (d['local'] == 0 and not d['proj']) or any(
+            st['k'] == 'assign' and st['dest']['local'] == 0 and not st['dest']['proj'] and st['rv']['k'] == 'use' and st['rv']['op'].get('k') in ('copy', 'move')
+            and st['rv']['op']['place']['local'] == d['local'] for blk in b['blocks'] for st in blk['stmts'])
+        if not to_ret and b['locals'][0]['ty'] != '()':
+            continue
+        forward.setdefault(hk, []).append((b, params))
+    forward = {hk: v[0] for hk, v in forward.items() if len(v) == 1}
+    for hk, (fb, params) in forward.items():
+        tr = fb.get('impl_trait')
+        desc = {'key': (tr + '::' + fb['name']) if tr else fb['key'], 'pretty': fb['pretty'], 'path': strip_generics(fb['pretty']), 'krate': j['crate'], 'name': fb['name'],
+                'args': [], 'trait': tr, 'trait_pretty': (tr or '').replace(j['crate'] + '::', '', 1) if tr else None, 'self_ty': fb.get('impl_self_ty'),
+                'self_is_param': False, 'self_adt': fb.get('impl_self_adt'), 'resolved': fb['key'], 'resolved_pretty': fb['pretty'], 'resolved_kind': 'item',
+                'resolved_krate': j['crate'], 'forwarded_from': hk}
+        for b in j['bodies']:
+            if b is fb or b['key'] == hk:
+                continue
+            for blk in b['blocks']:
+                t = blk['term']
+                if t['k'] == 'call' and (t['callee'].get('resolved') or t['callee'].get('key')) == hk:
+                    new_args = []
+                    for pi in range(1, fb['arg_count'] + 1):
+                        if pi in params:
+                            new_args.append(t['args'][params.index(pi)])
+                        else:
+                            new_args.append({'k': 'const', 'c': {'text': '<receiver of the forwarding function>'}})
+                    t['args'] = new_args
+                    t['arg_tys'] = [fb['locals'][pi]['ty'] for pi in range(1, fb['arg_count'] + 1)]
+                    t['callee'] = dict(desc)
     for _ in range(max_rounds):
         changed = False
         for b in j['bodies']:
